@@ -16,7 +16,7 @@ RULE = (
 )
 ASSUMPTIONS = ["/proc/self/fd, threading.enumerate(), psutil children and /dev/shm are the observers",
                "a leak must accumulate: equal excess after every repetition is attributed to first-use initialisation"]
-KINDS = ["plain_broken_bigargs", "plain_broken_gc", "plain_pickle_error_gc", "plain_clean", "plain_with", "plain_nowait", "plain_kill", "plain_broken", "plain_gc", "plain_idle", "plain_nested",
+KINDS = ["plain_broken_tree", "reusable_grow_worker_killed", "plain_broken_bigargs", "plain_broken_gc", "plain_pickle_error_gc", "plain_clean", "plain_with", "plain_nowait", "plain_kill", "plain_broken", "plain_gc", "plain_idle", "plain_nested",
          "reusable_clean", "reusable_resize", "reusable_broken", "reusable_kill", "reusable_idle"]
 
 
@@ -41,6 +41,24 @@ def oracle(prog, out):
     return v
 
 
+def _run_prog(runner, prog, base):
+    import json
+    plan = []
+    kinds = {l["kind"] for l in prog["lives"]}
+    if "plain_broken_tree" in kinds:
+        # fault plan (LOKY_VERIF=1): at every listing of a worker's process tree by the parent, the last listed descendant exits
+        # on its own and is reaped before the kills are sent
+        plan += [{"point": "kill_tree.listed", "role": "parent", "nth": k, "action": "reap_descendant"} for k in range(1, 80)]
+    if "reusable_grow_worker_killed" in kinds:
+        # every worker start is followed by a pause before the new process is registered: the kill of an old worker lands
+        # while a start is in flight
+        plan += [{"point": "spawn.started", "role": "parent", "nth": k, "action": "sleep:120"} for k in range(1, 400)]
+    if plan:
+        return runner.run("drv_c20.py", prog, base, timeout=600, hooks=True,
+                          env_extra={"LOKY_VERIF_PLAN": json.dumps(plan), "LOKY_VERIF_DIR": "."})
+    return runner.run("drv_c20.py", prog, base, timeout=600)
+
+
 def real_shard(seed, n, tier="quick", focus=None):
     import hypothesis
     from hypothesis import given, settings, HealthCheck, Phase, strategies as st
@@ -62,7 +80,7 @@ def real_shard(seed, n, tier="quick", focus=None):
             # several lists whatever the generator's taste
             lives = [{"kind": focus, "workers": fw, "n": fn}] + lives
         prog = {"lives": lives, "reps": reps}
-        res = runner.run("drv_c20.py", prog, base, timeout=600)
+        res = _run_prog(runner, prog, base)
         if res["timed_out"]:
             raise HarnessError(f"C20 real driver watchdog: prog={prog} err={res['err'][-600:]}")
         case = {"engine": "real", "prog": prog}
@@ -93,10 +111,10 @@ def real_shard(seed, n, tier="quick", focus=None):
 
 def run(tier, seed):
     from vlib.shards import run_jobs
-    nr = 48 if tier == "quick" else 480
-    jobs = [{"module": "props.c20", "func": "real_shard", "kwargs": {"seed": common.derive_seed(seed, ID, "r", i), "n": nr // 16, "tier": tier,
-                                                                     "focus": KINDS[i % len(KINDS)]}}
-            for i in range(16)]
+    per = 3 if tier == "quick" else 27
+    jobs = [{"module": "props.c20", "func": "real_shard", "kwargs": {"seed": common.derive_seed(seed, ID, "r", i), "n": per, "tier": tier,
+                                                                     "focus": KINDS[i]}}
+            for i in range(len(KINDS))]      # one shard per lifecycle kind
     acc, not_run = run_jobs(jobs, tag="c20", timeout_s=1500 if tier == "quick" else 7200)
     if not_run:
         acc.notes.append(f"{not_run} shard processes hit the wall-clock cap")
@@ -107,7 +125,7 @@ def replay(case, verbose=False):
     from real import runner
     import shutil
     base = runner.workdir("c20replay")
-    res = runner.run("drv_c20.py", case["prog"], base, timeout=600)
+    res = _run_prog(runner, case["prog"], base)
     if verbose:
         for o in res["out"]:
             if "rep" in o:
